@@ -48,8 +48,8 @@ theorem C01_run (ops : List (Op K V)) : ∀ (s : Cache.St K V) (a : TTL.St K V),
 whose default is the constructor's (a default below 1 ns meaning "never") -/
 theorem C01_init (c : Cache.Ctor) (now : Int) (h0 : 0 ≤ now) :
     Sim (K := K) (V := V) (Cache.construct c now).1
-      (TTL.construct (match c with | .newOpts d _ _ _ => d | .newDefault d _ _ => some d)
-        (match c with | .newOpts _ _ cb _ => cb | .newDefault _ _ cb => cb) now) := by
+      (TTL.construct (match c with | .newOpts d _ _ _ => d | .newDefault d _ _ => some d | .newOptsOver _ d _ _ _ => some d)
+        (match c with | .newOpts _ _ cb _ => cb | .newDefault _ _ cb => cb | .newOptsOver _ _ _ cb _ => cb) now) := by
   have wf0 : ∀ (d : Int) (cb : Option Nat), Sim (K := K) (V := V) ⟨[], now, d, cb⟩ ⟨[], now, d, cb⟩ :=
     fun d cb => ⟨⟨AMap.WF_nil, (fun p hp => by cases hp), h0⟩, AMap.WF_nil, rfl, rfl, rfl, fun _ => rfl⟩
   cases c with
@@ -61,6 +61,10 @@ theorem C01_init (c : Cache.Ctor) (now : Int) (h0 : 0 ≤ now) :
     cases cb <;>
       simp [Cache.construct, Cache.newXsyncMap, TTL.construct, TTL.init, Gen.newXsyncMap_dflt, Gen.newXsyncMap_hasCb, Gen.newXsyncMap_janitor, Gen.NewDefault_cfg, Gen.New_cfg, Gen.WithDefaultExpiration, Gen.WithCleanupInterval, Gen.WithEvictedCallback, Gen.WithMinCapacity, List.foldl, Proofs.LeafCache.configDefault_spec,
         Gen.NoExpiration, TTL.NoExpiration] <;> first | exact wf0 _ _ | (split <;> exact wf0 _ _)
+  | newOptsOver b d i cb m =>
+    cases i <;> cases cb <;> cases m <;>
+      simp [Cache.construct, Cache.newXsyncMap, TTL.construct, TTL.init, Gen.newXsyncMap_dflt, Gen.newXsyncMap_hasCb, Gen.newXsyncMap_janitor, Gen.NewDefault_cfg, Gen.New_cfg, Gen.WithDefaultExpiration, Gen.WithCleanupInterval, Gen.WithEvictedCallback, Gen.WithMinCapacity, List.foldl, Proofs.LeafCache.configDefault_spec,
+        Gen.DefaultConfig_, Gen.NoExpiration, TTL.NoExpiration] <;> first | exact wf0 _ _ | (split <;> exact wf0 _ _)
 
 /-- the generic twin takes the same steps (so every statement above holds for `CacheOf` too) -/
 theorem C01_twin (s : Cache.St K V) (op : Op K V) : CacheOf.step s op = Cache.step s op :=
